@@ -150,6 +150,7 @@ MUTANTS = [
     M('sema:range:step-dropped', 'sema', ['C06'], 'range_expression_to_asg_type', 'asg::RangeExpression::new(start, step, stop)', 'asg::RangeExpression::new(start, None, stop)'),
     M('sema:scalar_type:width-dropped-for-float', 'sema', ['C09'], 'scalar_type_to_type', 'synast::ScalarTypeKind::Float => Type::Float(width, isconst.into()),', 'synast::ScalarTypeKind::Float => Type::Float(None, isconst.into()),'),
     M('sema:param_type:array-ref-as-scalar', 'sema', ['C09'], 'param_type_to_type', 'synast::ParamType::ArrayRefType(_) => return Type::ToDo,', 'synast::ParamType::ArrayRefType(_) => return Type::Void,'),
+    M('sema:typed-param:bound-const', 'sema', ['C09'], 'bind_typed_parameter_list', 'param_type_to_type(&pt, false, context)', 'param_type_to_type(&pt, true, context)'),
     # ---- PARSER marker discipline
     M('parser:marker:complete-wrong-slot', 'parser', ['C01', 'C02'], 'Marker::complete', 'let idx = self.pos as usize;', 'let idx = (self.pos as usize) + 1;'),
     M('parser:marker:abandon-always-pops', 'parser', ['C01', 'C02'], 'Marker::abandon', 'if idx == p.events.len() - 1 {', 'if idx <= p.events.len() - 1 {'),
